@@ -307,7 +307,7 @@ func (a *attackAnchors) resolveShutdown() (events []shutdownEvent, registered bo
 	}
 	for k := len(defers) - 1; k >= 0; k-- { // LIFO
 		d := defers[k]
-		if cl := closureOf(d.Call.Value); cl != nil && cl.Parent() != nil {
+		if cl := literalOf(d.Call.Value); cl != nil && cl.Parent() != nil {
 			// events of the closure in dominance order; only straight-line closures are accepted
 			var evs []shutdownEvent
 			eachInstr(cl, func(i ssa.Instruction) {
